@@ -91,8 +91,9 @@ def rt_check(verdict, b, g, desc, rep, sigprefix):
         raise ModelError("round trip: unexpected observation count")
     t1, t2, t3 = pr[0]["text"], pr[1]["text"], pr[2]["text"]
     probs = []
+    from .printnorm import same
     want = "".join(x + "\n" for x in b.get("printed", []))
-    if b.get("printed") and t1 != want:
+    if b.get("printed") and not same(b["printed"], t1.split("\n")[:-1] if t1.endswith("\n") else t1.split("\n")):
         probs.append(("text", "printed text differs from the specification: %r vs %r" % (t1[:200], want[:200])))
     if rp[0]["ret"] != 0:
         probs.append(("reparse", "the printed text is rejected by the parser (%s): %r" % ([d["msg"] for d in rp[0]["diag"]][:2], t1[:300])))
